@@ -1096,8 +1096,9 @@ fn stress(iter: usize) {
     let go = Arc::new(AU::new(0));
     let done = Arc::new(AU::new(0));
     let stop = Arc::new(std::sync::atomic::AtomicBool::new(false));
+    let panicked = Arc::new(std::sync::atomic::AtomicBool::new(false));
     let partner = {
-        let (slot, go, done, stop) = (slot.clone(), go.clone(), done.clone(), stop.clone());
+        let (slot, go, done, stop, panicked) = (slot.clone(), go.clone(), done.clone(), stop.clone(), panicked.clone());
         std::thread::spawn(move || {
             let mut seen = 0;
             loop {
@@ -1109,7 +1110,9 @@ fn stress(iter: usize) {
                 }
                 seen += 1;
                 let job = slot.lock().unwrap().take().unwrap();
-                job();
+                if std::panic::catch_unwind(std::panic::AssertUnwindSafe(job)).is_err() {
+                    panicked.store(true, Ordering::SeqCst);
+                }
                 done.store(seen, Ordering::Release);
             }
         })
@@ -1186,6 +1189,46 @@ fn stress(iter: usize) {
             runs += 1;
             if let Some(Ok(_)) = again {
                 fails.push(format!("C07 resize(0) racing get: a get succeeded afterwards, status={:?}", p.status()));
+            }
+        }
+        // S5: two gets race on a pool that still owes one permit to an earlier shrink
+        {
+            let (p, _, _) = mk(2);
+            let a = ready(p.timeout_get(&nb)).unwrap().unwrap();
+            let b = ready(p.timeout_get(&nb)).unwrap().unwrap();
+            p.resize(1);
+            drop(a);
+            drop(b);
+            let p1 = p.clone();
+            let got: Arc<Mutex<Vec<Object<CMgr>>>> = Arc::new(Mutex::new(vec![]));
+            let got1 = got.clone();
+            let mut g = None;
+            let main_panicked = std::panic::catch_unwind(std::panic::AssertUnwindSafe(|| {
+                race(
+                    Box::new(move || {
+                        if let Some(Ok(o)) = ready(p1.timeout_get(&Timeouts { wait: Some(Duration::ZERO), create: None, recycle: None })) {
+                            got1.lock().unwrap().push(o);
+                        }
+                    }),
+                    i % 23,
+                    &mut || g = ready(p.timeout_get(&nb)),
+                );
+            }))
+            .is_err();
+            runs += 1;
+            let n_ok = got.lock().unwrap().len() + matches!(g, Some(Ok(_))) as usize;
+            if main_panicked || panicked.swap(false, Ordering::SeqCst) {
+                fails.push("C02 get() panicked while settling the debt of an earlier shrink (two gets racing)".to_string());
+            } else if n_ok > 1 {
+                fails.push(format!("C07 after resize(1): {} racing gets succeeded at once", n_ok));
+            } else {
+                drop(g);
+                got.lock().unwrap().clear();
+                let one = ready(p.timeout_get(&nb));
+                let two = ready(p.timeout_get(&nb));
+                if !matches!(one, Some(Ok(_))) || matches!(two, Some(Ok(_))) {
+                    fails.push(format!("C02 capacity after shrink + two racing gets: max_size 1, status {:?}", p.status()));
+                }
             }
         }
         if fails.len() >= 5 {
@@ -1267,8 +1310,9 @@ fn stress2(seed: u64, iter: usize) {
     let go = Arc::new(AU::new(0));
     let done = Arc::new(AU::new(0));
     let stop = Arc::new(AtomicBool::new(false));
+    let panicked = Arc::new(AtomicBool::new(false));
     let partner = {
-        let (slot, go, done, stop) = (slot.clone(), go.clone(), done.clone(), stop.clone());
+        let (slot, go, done, stop, panicked) = (slot.clone(), go.clone(), done.clone(), stop.clone(), panicked.clone());
         std::thread::spawn(move || {
             let mut seen = 0;
             loop {
@@ -1280,7 +1324,9 @@ fn stress2(seed: u64, iter: usize) {
                 }
                 seen += 1;
                 let job = slot.lock().unwrap().take().unwrap();
-                job();
+                if std::panic::catch_unwind(std::panic::AssertUnwindSafe(job)).is_err() {
+                    panicked.store(true, Ordering::SeqCst);
+                }
                 done.store(seen, Ordering::Release);
             }
         })
@@ -1347,13 +1393,18 @@ fn stress2(seed: u64, iter: usize) {
         let bag_b: Bag = Arc::new(Mutex::new(vec![]));
         let taken: Arc<Mutex<Vec<O2>>> = Arc::new(Mutex::new(vec![]));
         let mut script: Vec<String> = vec![format!("max_size {}", max)];
+        let mut prefix_resized = false;
         // sequential prefix
         for _ in 0..rng.below(6) {
-            let op = match rng.below(10) {
+            let op = match rng.below(12) {
                 0..=4 => Op::Get,
                 5..=7 => Op::Drop,
                 8 => Op::Take,
-                _ => Op::Status,
+                9 => Op::Status,
+                _ => {
+                    prefix_resized = true;
+                    Op::Resize(rng.below(4) as usize)
+                }
             };
             let bag = if rng.chance(50) { &bag_a } else { &bag_b };
             perform(&p, op, bag, &taken, &nb);
@@ -1372,7 +1423,7 @@ fn stress2(seed: u64, iter: usize) {
         let op_a = pick(&mut rng, true);
         let op_b = pick(&mut rng, !matches!(op_a, Op::Resize(_) | Op::Close));
         script.push(format!("RACE {:?} || {:?}", op_a, op_b));
-        let resized = matches!(op_a, Op::Resize(_) | Op::Close) || matches!(op_b, Op::Resize(_) | Op::Close);
+        let resized = prefix_resized || matches!(op_a, Op::Resize(_) | Op::Close) || matches!(op_b, Op::Resize(_) | Op::Close);
         {
             let (p1, bag1, taken1, nb1) = (p.clone(), bag_a.clone(), taken.clone(), nb);
             *slot.lock().unwrap() = Some(Box::new(move || perform(&p1, op_a, &bag1, &taken1, &nb1)));
@@ -1381,9 +1432,19 @@ fn stress2(seed: u64, iter: usize) {
             for _ in 0..rng.below(40) {
                 std::hint::spin_loop();
             }
-            perform(&p, op_b, &bag_b, &taken, &nb);
+            let main_panicked = std::panic::catch_unwind(std::panic::AssertUnwindSafe(|| {
+                perform(&p, op_b, &bag_b, &taken, &nb)
+            }))
+            .is_err();
             while done.load(Ordering::Acquire) != trial {
                 std::hint::spin_loop();
+            }
+            if main_panicked || panicked.swap(false, Ordering::SeqCst) {
+                fails.push(format!("C02 an operation panicked | history: {}", script.join("; ")));
+                if fails.len() >= 5 {
+                    break;
+                }
+                continue;
             }
         }
         runs += 1;
